@@ -893,6 +893,12 @@ func (s *DB) RemoveTombstones(ctx context.Context, before time.Time) error {
 		return fmt.Errorf("clone: %w", err)
 	}
 	cutoff := before.UnixNano()
+	// UnixNano wraps around outside the years 1678..2262
+	if before.After(time.Unix(0, math.MaxInt64)) {
+		cutoff = math.MaxInt64
+	} else if before.Before(time.Unix(0, math.MinInt64)) {
+		cutoff = math.MinInt64
+	}
 	origSize := s.Size()
 	err = sc.crdt.Mast.DiffIter(ctx, nil, func(added, removed bool, key, addedValue, removedValue interface{}) (keepGoing bool, err error) {
 		cv := addedValue.(crdtpub.Value)
